@@ -472,10 +472,10 @@ func (l *lockedBuf) lock() {
 	}
 	l.mu <- struct{}{}
 }
-func (l *lockedBuf) unlock()                   { <-l.mu }
+func (l *lockedBuf) unlock()                     { <-l.mu }
 func (l *lockedBuf) Write(p []byte) (int, error) { l.lock(); defer l.unlock(); return l.b.Write(p) }
-func (l *lockedBuf) Len() int                  { l.lock(); defer l.unlock(); return l.b.Len() }
-func (l *lockedBuf) String() string            { l.lock(); defer l.unlock(); return l.b.String() }
+func (l *lockedBuf) Len() int                    { l.lock(); defer l.unlock(); return l.b.Len() }
+func (l *lockedBuf) String() string              { l.lock(); defer l.unlock(); return l.b.String() }
 
 // waitBlockedInRead: some thread of pid is inside read(2) on fd 0 (a state, not a deadline: the
 // timeout only makes the case inconclusive).
@@ -590,7 +590,7 @@ func c03Run(c *Case) {
 func init() {
 	register(&Prop{
 		ID: "C03", Level: "fault_enumeration",
-		Rule: "fault enumeration per generated value stream (1-6 values: arrays, objects, scalars, separators none/space/newline/CRLF/tab): 12 chunk plans on the intact stream (1 byte per read, 2, 7, whole, random partitions with (0,nil) reads, final (n,EOF) or (0,EOF)) which must all agree; EVERY truncation point; a reader error injected at EVERY offset twice, as (0,err) and as (n>0,err); EVERY single-byte deletion plus sampled substitutions and insertions of structural bytes; 29 fixed streams from the property (stray closers, garbage between values, touching values, BOM, form feed). Oracle: a hand-written stream splitter gives the complete values and whether the rest is clean/truncated/damaged; expected output = reference model on those values; outcome must be ok for a clean stream and a JSON error naming the file otherwise; the reader/writer ledger checks at every Read call that every value handed out together with one further byte already has its output written. Binary level: stdin fed chunk by chunk, after each chunk the process is observed blocked in read(0) via /proc and the output due so far must be on the pipe; directory and /proc/self/mem as input; EIO injected with strace on read 1, 2, 3 of a file. Non-trivial = stream with >= 2 values; distinct by (stream, damage kind, position).",
+		Rule:          "fault enumeration per generated value stream (1-6 values: arrays, objects, scalars, separators none/space/newline/CRLF/tab): 12 chunk plans on the intact stream (1 byte per read, 2, 7, whole, random partitions with (0,nil) reads, final (n,EOF) or (0,EOF)) which must all agree; EVERY truncation point; a reader error injected at EVERY offset twice, as (0,err) and as (n>0,err); EVERY single-byte deletion plus sampled substitutions and insertions of structural bytes; 29 fixed streams from the property (stray closers, garbage between values, touching values, BOM, form feed). Oracle: a hand-written stream splitter gives the complete values and whether the rest is clean/truncated/damaged; expected output = reference model on those values; outcome must be ok for a clean stream and a JSON error naming the file otherwise; the reader/writer ledger checks at every Read call that every value handed out together with one further byte already has its output written. Binary level: stdin fed chunk by chunk, after each chunk the process is observed blocked in read(0) via /proc and the output due so far must be on the pipe; directory and /proc/self/mem as input; EIO injected with strace on read 1, 2, 3 of a file. Non-trivial = stream with >= 2 values; distinct by (stream, damage kind, position).",
 		NumCases:      c03Cases,
 		Run:           c03Run,
 		MinConclusive: func(tier string) int { return 50000 },
